@@ -4,6 +4,8 @@
 (*    field  "u" | "v" | "a"          the displacement / velocity / acceleration vector       *)
 (*           "Ku"                      nodal internal forces K u                               *)
 (*           "S" | "E"                 stress / strain (element mean of the Gauss-point values)*)
+(*           "Eb" | "Fb" | "Sb"        beam generalised strains [ux', rx', ry', rz'], internal *)
+(*                                     forces [N, Mx, My, Mz] and stresses (element means)     *)
 (*    component  0-based index | "all" | "norm" | "vm" (von Mises norm at each Gauss point,    *)
 (*               THEN averaged per element)                                                    *)
 (* The harness sets the live fields to mutually distinguishable random arrays, evaluates every *)
@@ -11,7 +13,11 @@
 (* TLC compares the observed token with Def.                                                   *)
 EXTENDS Integers, Sequences, FiniteSets, TLC, Json, IOUtils
 
-Obs == JsonDeserialize(IOEnv.RESULT_TABLE)     \* sequence of [sim, dim, dofn, name, tokens]  (tokens: every candidate the returned array equals)
+(* A request also names a FORM (nodal or element values).  Stored(t) says where the quantity *)
+(* lives; the returned array must have one row per node (nodal form) or per element (element *)
+(* form) whatever the two counts are -- SizeClass names the pairs (Nn, Ne) for which the size *)
+(* of an array does not tell where it is stored, and every class must be witnessed.          *)
+Obs == JsonDeserialize(IOEnv.RESULT_TABLE)     \* sequence of [sim, dim, dofn, name, node, Nn, Ne, size, tokens, avail]  (tokens: every candidate of the requested form the returned array equals)
 
 VARIABLE k
 vars == <<k>>
@@ -36,37 +42,77 @@ MergeAll(s) == IF Len(s) = 1 THEN s[1] ELSE Merge(s[1], MergeAll(Tail(s)))
 
 Kin(dim) == MergeAll(<<Comp("u", "u", dim), Comp("v", "v", dim), Comp("a", "a", dim),
                         [nm \in {"displacement"} |-> Tok("u", "all")], [nm \in {"displacement_norm"} |-> Tok("u", "norm")],
+                        [nm \in {"displacement_matrix"} |-> Tok("u", "matrix")],      \* (x, y, z) columns, zero where the space has fewer
                         [nm \in {"speed"} |-> Tok("v", "all")], [nm \in {"speed_norm"} |-> Tok("v", "norm")],
                         [nm \in {"accel"} |-> Tok("a", "all")], [nm \in {"accel_norm"} |-> Tok("a", "norm")]>>)
 Mech(dim) == MergeAll(<<Tens("S", "S", dim), Tens("E", "E", dim),
                          [nm \in {"Svm"} |-> Tok("S", "vm")], [nm \in {"Evm"} |-> Tok("E", "vm")],
                          [nm \in {"Stress"} |-> Tok("S", "all")], [nm \in {"Strain"} |-> Tok("E", "all")]>>)
 
+BeamStrains(dofn) == CASE dofn = 1 -> <<"ux'">> [] dofn = 3 -> <<"ux'", "rz'">> [] dofn = 6 -> <<"ux'", "rx'", "ry'", "rz'">>
+BeamIntForces(dofn) == CASE dofn = 1 -> <<"N">> [] dofn = 3 -> <<"N", "Mz">> [] dofn = 6 -> <<"N", "Mx", "My", "Mz">>
+BeamStress(dofn) == CASE dofn = 1 -> <<"Sxx">> [] dofn = 3 -> <<"Sxx", "Syy", "Sxy">> [] dofn = 6 -> <<"Sxx", "Syy", "Szz", "Syz", "Sxz", "Sxy">>
 BeamDofs(dofn) == CASE dofn = 1 -> <<"ux">> [] dofn = 3 -> <<"ux", "uy", "rz">> [] dofn = 6 -> <<"ux", "uy", "uz", "rx", "ry", "rz">>
 BeamForces(dofn) == CASE dofn = 1 -> <<"fx">> [] dofn = 3 -> <<"fx", "fy", "cz">> [] dofn = 6 -> <<"fx", "fy", "fz", "cx", "cy", "cz">>
 Digits == <<"0", "1", "2", "3", "4", "5">>
 SeqTok(names, field) == [nm \in {names[i] : i \in 1..Len(names)} |-> Tok(field, Digits[CHOOSE i \in 1..Len(names) : names[i] = nm])]
 
+(* element quantities whose VALUE this module does not define (energies per element, error indicators, the stress    *)
+(* measures of the non-linear kinds): only the form of what is returned is judged -- one entry per node or per element *)
+FormOnly(scalars, dim) ==
+    Merge([nm \in scalars |-> Tok("any_e", "0")],
+          MergeAll(<<[nm \in DOMAIN Mech(dim) |-> Tok("any_e", IF Mech(dim)[nm][2] = "all" THEN "all" ELSE "0")],
+                     [nm \in {"Green-Lagrange", "Piola-Kirchhoff"} |-> Tok("any_e", "all")]>>))
+
 Def(sim, dim, dofn) ==
-    CASE sim = "Elastic"      -> Merge(Kin(dim), Mech(dim))
-      [] sim = "HyperElastic" -> Kin(dim)
-      [] sim = "PhaseField"   -> MergeAll(<<Comp("u", "u", dim), [nm \in {"displacement"} |-> Tok("u", "all")],
+    CASE sim = "Elastic"      -> MergeAll(<<Kin(dim), Mech(dim), [nm \in {"Wdef_e", "ZZ1_e"} |-> Tok("any_e", "0")]>>)
+      [] sim = "HyperElastic" -> Merge(Kin(dim), FormOnly({"W_e"}, dim))
+      [] sim = "PhaseField"   -> MergeAll(<<Comp("u", "u", dim), [nm \in {"displacement"} |-> Tok("u", "all")], [nm \in {"displacement_matrix"} |-> Tok("u", "matrix")],
+                                            [nm \in DOMAIN FormOnly({"psiP", "Wdef_e"}, dim) \ {"Green-Lagrange", "Piola-Kirchhoff"} |-> FormOnly({"psiP", "Wdef_e"}, dim)[nm]],
                                             [nm \in {"displacement_norm"} |-> Tok("u", "norm")], [nm \in {"damage"} |-> Tok("d", "all")]>>)
       [] sim = "Thermal"      -> [nm \in {"thermal", "thermalDot"} |-> IF nm = "thermal" THEN Tok("u", "all") ELSE Tok("v", "all")]
       [] sim = "WeakForms"    -> MergeAll(<<Comp("u", "u", dofn), Comp("v", "v", dofn), Comp("a", "a", dofn),
                                             [nm \in {"u"} |-> Tok("u", "all")], [nm \in {"v"} |-> Tok("v", "all")], [nm \in {"a"} |-> Tok("a", "all")]>>)
-      [] sim = "Beam"         -> MergeAll(<<SeqTok(BeamDofs(dofn), "u"), SeqTok(BeamForces(dofn), "Ku"), [nm \in {"displacement"} |-> Tok("u", "all")]>>)
+      [] sim = "Beam"         -> MergeAll(<<SeqTok(BeamDofs(dofn), "u"), SeqTok(BeamForces(dofn), "Ku"), [nm \in {"displacement"} |-> Tok("u", "all")],
+                                            SeqTok(BeamStrains(dofn), "Eb"), SeqTok(BeamIntForces(dofn), "Fb"), SeqTok(BeamStress(dofn), "Sb"),
+                                            [nm \in {"Strain"} |-> Tok("Eb", "all")], [nm \in {"Stress"} |-> Tok("Sb", "all")]>>)
+
+(* where a quantity is stored, and how many components one entity carries *)
+Stored(t) == IF t[1] \in {"u", "v", "a", "d", "Ku"} THEN "node" ELSE "elem"
+NVoigt(dim) == IF dim = 1 THEN 1 ELSE IF dim = 2 THEN 3 ELSE 6
+NComp(t, sim, dim, dofn) ==
+    IF t[2] = "matrix" THEN 3 ELSE
+    IF t[2] # "all" THEN 1
+    ELSE CASE t[1] \in {"u", "v", "a"} -> (IF sim \in {"Beam", "WeakForms"} THEN dofn ELSE IF sim = "Thermal" THEN 1 ELSE dim)
+           [] t[1] = "d" -> 1
+           [] t[1] \in {"S", "E", "Sb"} -> NVoigt(dim)
+           [] t[1] = "any_e" -> NVoigt(dim)
+           [] t[1] = "Eb" -> Len(BeamStrains(dofn))
+           [] OTHER -> 1
+(* the finite-strain measures of a plane problem come as plane (3) or full (6) Voigt vectors: either is one tensor per entity *)
+NCompSet(t, sim, dim, dofn) == IF t = <<"any_e", "all">> /\ sim = "HyperElastic" THEN {NVoigt(dim), 6} ELSE {NComp(t, sim, dim, dofn)}
+(* the whole result a component belongs to must be advertised with it *)
+Whole(t) == CASE t[1] = "Eb" -> "Strain" [] t[1] = "Sb" -> "Stress" [] t[1] = "S" -> "Stress" [] t[1] = "E" -> "Strain" [] OTHER -> ""
+
+SizeClass(Nn, Ne) == IF Ne = 1 THEN "one-element" ELSE IF Nn = Ne THEN "equal" ELSE IF Nn % Ne = 0 THEN "multiple"
+                     ELSE IF \E c \in 2..6 : (c * Nn) % Ne = 0 \/ (c * Ne) % Nn = 0 THEN "multiple-with-components" ELSE "generic"
+Classes == {<<Obs[i].sim, SizeClass(Obs[i].Nn, Obs[i].Ne)>> : i \in 1..Len(Obs)}
 
 O == Obs[k]
 Verdict ==
     LET d == Def(O.sim, O.dim, O.dofn) IN
-    [sim |-> O.sim, dim |-> O.dim, dofn |-> O.dofn, name |-> O.name, tokens |-> O.tokens,
+    [sim |-> O.sim, dim |-> O.dim, dofn |-> O.dofn, name |-> O.name, tokens |-> O.tokens, node |-> O.node, Nn |-> O.Nn, Ne |-> O.Ne, size |-> O.size,
+     class |-> SizeClass(O.Nn, O.Ne),
      verdict |-> IF O.name \notin DOMAIN d THEN "unmodelled"
-                 ELSE IF \E i \in 1..Len(O.tokens) : O.tokens[i] = d[O.name] THEN "ok" ELSE "mismatch",
+                 ELSE LET t == d[O.name] IN
+                      IF O.size \notin {(IF O.node THEN O.Nn ELSE O.Ne) * n : n \in NCompSet(t, O.sim, O.dim, O.dofn)} THEN "wrong-form"
+                      ELSE IF Whole(t) # "" /\ ~(\E i \in 1..Len(O.avail) : O.avail[i] = Whole(t)) THEN "orphan"
+                      ELSE IF t[1] = "any_e" \/ (Stored(t) = "elem" /\ O.node) THEN "ok"       \* smoothing to the nodes: the form is judged, the values by the constant-field rule
+                      ELSE IF \E i \in 1..Len(O.tokens) : O.tokens[i] = t THEN "ok" ELSE "mismatch",
      expected |-> IF O.name \in DOMAIN d THEN d[O.name] ELSE <<"?", "?">>]
 
 Init == k = 1
 Next == k < Len(Obs) /\ k' = k + 1
 Spec == Init /\ [][Next]_vars
-Report == PrintT(<<"VERDICT", ToJson(Verdict)>>)
+Report == PrintT(<<"VERDICT", ToJson(Verdict)>>) /\ (k = Len(Obs) => PrintT(<<"CLASSES", ToJson(Classes)>>))
 =============================================================================
